@@ -14,7 +14,7 @@ import (
 
 // Opts steer the generator.
 type Opts struct {
-	Profile string // http-loc validation errors security views grpc naming openapi mixed
+	Profile string // http-loc validation errors security views grpc naming openapi mixed stream
 	// Runtime restricts the envelope to what the runtime driver can drive (no unions, streaming, multipart, files).
 	Runtime  bool
 	Thorough bool
@@ -22,10 +22,22 @@ type Opts struct {
 	Files bool
 	// Avoid lists feature combinations that are open known findings of C01 (DESIGN §12); never set for C01 itself.
 	Avoid map[string]bool
+	// Streams allows HTTP streaming (websocket) methods in Runtime mode (gen/stream.go). Outside Runtime
+	// mode every profile emits them with a modest probability; the profile "stream" makes most methods stream.
+	Streams bool
+	// NoStreams switches streaming methods off outside Runtime mode (checks calibrated without them).
+	NoStreams bool
+	// StreamForce steers the first streaming method of the design: "views" = a server stream of a result type
+	// with three views none of whose attributes is required or defaulted (so every view can be judged).
+	StreamForce string
+	// StreamViews allows result types with views as streamed results in Runtime mode.
+	StreamViews bool
 }
 
 type g struct {
 	r          *vc.Rand
+	sr         *vc.Rand // stream of the "is this method streaming" decisions (derived: does not shift r)
+	forced     bool     // Opts.StreamForce has been honoured
 	o          Opts
 	s          *spec.Spec
 	names      map[string]bool // user type names used
@@ -73,7 +85,7 @@ func (x *g) pickName(used map[string]bool) string {
 
 // Generate draws one spec.
 func Generate(r *vc.Rand, id string, o Opts) *spec.Spec {
-	x := &g{r: r, o: o, names: map[string]bool{}}
+	x := &g{r: r, sr: r.Derive(0x57e4), o: o, names: map[string]bool{}}
 	s := &spec.Spec{ID: id}
 	x.s = s
 	s.API.Name = "api" + strings.ToLower(id)
@@ -268,6 +280,10 @@ func (x *g) genUserTypes() {
 	switch x.o.Profile {
 	case "views":
 		nres = x.r.Range(1, 2)
+	case "stream":
+		if x.chance(1, 2) {
+			nres = 1
+		}
 	default:
 		if x.chance(1, 3) {
 			nres = 1
